@@ -23,23 +23,30 @@ def handle (tb : Tables) (c impl : T) : String :=
          | _ => false
        verdict impl cur [{ flag := "D21", onInCur := cfgCur.sampleAfterLookahead, obs := alt }] specOk
      | _, _, _ => "bad-op")
-  | .node "c07op" [src, off, len] =>
-    -- the location of "'x' is not a valid executable operation type" for a top-level word at src[off, off+len)
+  | .node "c07op" [.atom kind, src, off, len] =>
+    -- a location that must be the start of the token at src[off, off+len):
+    --   opword   "'x' is not a valid executable operation type"                (D64)
+    --   fragcond "missing fragment condition" (the token where `on` is expected) (D70)
+    --   vardef   a variable coercion error, located at the variable's name       (D71)
     (match src.asChars, off.asNat, len.asNat with
      | some src, some off, some len =>
-       let cfgOp : Cfg := { sampleAfterLookahead := tb.opErrPosAfterLookahead }
+       let (flag, asCoded) : String × Bool := match kind with
+         | "opword" => ("D64", tb.opErrPosAfterLookahead)
+         | "fragcond" => ("D70", tb.fragCondPosAfterToken)
+         | _ => ("D71", tb.varDefPosAfterToken)
        -- at end of input there is no look-ahead byte to consume: the as-coded form then samples after the token only
        let atEof := decide (src.length ≤ off + len)
-       let locOf (c : Cfg) : Int × Int :=
-         if c.sampleAfterLookahead && atEof then
-           let p := after (src.take (off + len)); (p.line, (p.col : Int) - len)
-         else fieldLoc c src off len
-       let cur := encLoc (locOf cfgOp)
-       let alt := encLoc (locOf { sampleAfterLookahead := !cfgOp.sampleAfterLookahead })
+       let locOf (c : Bool) : Int × Int :=
+         if c then
+           let p := after (src.take (if atEof then off + len else off + len + 1))
+           (p.line, (p.col : Int) - (if kind == "fragcond" then 2 else len))
+         else fieldLoc { sampleAfterLookahead := false } src off len
+       let cur := encLoc (locOf asCoded)
+       let alt := encLoc (locOf (!asCoded))
        let specOk : Bool := match impl with
          | .node "loc" [l, c] => (match l.asInt, c.asInt with | some l, some c => locOk src off (l, c) | _, _ => false)
          | _ => false
-       verdict impl cur [{ flag := "D64", onInCur := cfgOp.sampleAfterLookahead, obs := alt }] specOk
+       verdict impl cur [{ flag := flag, onInCur := asCoded, obs := alt }] specOk
      | _, _, _ => "bad-op")
   | .node "c07env" [] =>
     -- (env keysOk errorsNonEmpty msgsOk pathsOk locsPositive rejectedNoData jsonOk)
@@ -48,7 +55,9 @@ def handle (tb : Tables) (c impl : T) : String :=
        let t := T.ofBool true
        if k == t && e == t && m == t && p == t && r == t && j == t then
          (if l == t then "ok" else if cfgCur.sampleAfterLookahead then "dev D21"
-          else if tb.opErrPosAfterLookahead then "dev D64" else "mismatch spec-bad (env …)")
+          else if tb.opErrPosAfterLookahead then "dev D64"
+          else if tb.fragCondPosAfterToken then "dev D70" else if tb.varDefPosAfterToken then "dev D71"
+          else "mismatch spec-bad (env …)")
        else "mismatch spec-bad (env true true true true true true true)"
      | _ => "bad-op")
   | .node "c07json" [txt] =>
@@ -63,6 +72,7 @@ def handle (tb : Tables) (c impl : T) : String :=
   | _ => "bad-op"
 
 def flags (tb : Tables) : List (String × Bool) :=
-  [("D21", (cfgCurOf tb).sampleAfterLookahead), ("D64", tb.opErrPosAfterLookahead)]
+  [("D21", (cfgCurOf tb).sampleAfterLookahead), ("D64", tb.opErrPosAfterLookahead), ("D70", tb.fragCondPosAfterToken),
+   ("D71", tb.varDefPosAfterToken)]
 
 end Ggql.Driver.C07
